@@ -131,6 +131,45 @@ CHECKS = {
         '(create/close/drop) against the first-creator-owns model.',
         'note': 'Line granularity, CPython with GIL; in-memory stores only (no HDF5 code runs concurrently).',
     },
+    'C01': {
+        'category': 'exploration',
+        'technique': 'Hypothesis PBT: generated trajectories/fuels/engine data/configurations vs independent fsum re-summation of the inventory',
+        'text': 'Generated trajectories (zero-burn segments, every window class, stratospheric points, simulated missions), '
+        'fuels, LTO/EDB/APU data sets, aircraft classes and one of the 41 472 option combinations; the returned Emissions value '
+        'is re-summed in plain Python (segment fuel, EI x fuel, window zeroing, LTO time-in-mode fuel, APU/GSE/life-cycle, '
+        'totals, counted-once, NOx/SOx speciation, finite and non-negative) without calling into AEIC.emissions.',
+        'note': 'Configurations refused by name are skipped as unsupported (C11 decides those). LTO flows ordered or equal; '
+        'trajectory fuel flow 0 or >= 5 % of idle flow.',
+    },
+    'C04': {
+        'category': 'exploration',
+        'technique': 'Hypothesis differential PBT vs independent parametric segment/grid reference cross-checked by dense sampling',
+        'text': 'Generated grids (regular/irregular, optional altitude/time axes) and point sequences built by construction '
+        '(points on grid lines and corners, legs along and hugging grid lines, westward/southward legs, zero-length segments, '
+        'one antimeridian crossing); per segment and variable the pieces must sum to the value within [1, chord-sum envelope], '
+        'all variables share the same shares, totals never less.',
+        'note': 'Trusted: pyproj Geod. Reference self-tested and cross-checked against 20 000-sample binning on ~5 % of cases '
+        '(disagreement = harness error).',
+    },
+    'C05': {
+        'category': 'exploration',
+        'technique': 'Hypothesis differential PBT vs independent parametric segment/grid reference (cumulative-interval containment)',
+        'text': 'Same generator as C04; output lengths, piece counts, start-point altitude/time/state values, and for every piece '
+        'the containment of its cumulative-share interval in the stretch where the map line is inside its (closed) cell, '
+        'which gives correct cell, path order and share together; antimeridian leg split; no-variables code path.',
+        'note': 'Coordinates at or below the first edge are outside the grid by the derived convention. Tolerance 1e-7 + '
+        '1e-13/min-component.',
+    },
+    'C11': {
+        'category': 'exploration',
+        'technique': 'exhaustive enumeration of the 41 472-configuration product (thorough), pairwise array + Hypothesis draws (quick), balance oracle',
+        'text': 'Every combination of the 12 documented options on a simulated and a synthetic trajectory: the outcome must be '
+        'an Emissions value passing the C01 balance oracle with switched-off species absent/zero in trajectory and LTO parts, '
+        'or NotImplementedError/ValueError naming the unsupported method; anything else is bucketed by exception type, AEIC '
+        'frame and the minimal triggering option assignment. The thorough tier is exhaustive (82 944 evaluations).',
+        'note': 'A method that is accepted and silently produces nothing is allowed if the inventory balances (the property '
+        'allows returns or refuses).',
+    },
 }
 
 NOT_YET = {}
